@@ -2,6 +2,7 @@
 """print the prompt given to an independent mutation sub-agent for one property (only the property text + its worktree)"""
 import json, sys
 pid, wt = sys.argv[1], sys.argv[2]
+focus = sys.argv[3] if len(sys.argv) > 3 else ""      # optional: substring(s) of the property's own anchored mechanisms to concentrate on
 p = [json.loads(l) for l in open('/verif/properties.jsonl') if json.loads(l)['id'] == pid][0]
 print(f"""You are working on a scratch git worktree of the Python library yuanchaohu/pymattersim (analysis of molecular-simulation trajectories) at {wt} . Work ONLY inside {wt}. Never read or write /repo or /verif (they are off limits). Use the interpreter /venv/bin/python with PYTHONPATH={wt} so that the worktree's copy of the package `PyMatterSim` is the one imported (check with: cd {wt} && PYTHONPATH={wt} /venv/bin/python -c "import PyMatterSim; print(PyMatterSim.__file__)"). There is no network.
 
@@ -17,7 +18,7 @@ A semantic property that the library is supposed to satisfy:
 Your task: act as a realistic source of regressions. Produce TWO independent, small changes to the library source (files under {wt}/PyMatterSim/ only; each change applies on its own to the clean checkout) such that each change
   (a) BREAKS the property above (for some inputs the statement becomes false),
   (b) still imports/compiles, and the existing test-suite still passes exactly as before: every test that passes on the clean checkout must still pass with your change (on the clean checkout roughly 90-95 tests pass and a handful fail for environment reasons: 2 voropp tests, 2 gsd tests, possibly a few more - those may keep failing). Run the test files relevant to the files you touch, e.g. `cd {wt} && PYTHONPATH={wt} /venv/bin/python -m pytest -q -p no:cacheprovider --timeout=900 tests/<subdir>/<file>_test.py`; do NOT run the whole suite (it takes 10-25 minutes and the machine is shared; it will be run by someone else afterwards): run every test file that imports a module you changed, directly or indirectly (grep the tests/ directory), one pytest process at a time,
-  (c) is NOT exposed by ordinary use at once: it should need something specific to manifest — an unusual but valid input (e.g. a branch the tests never execute, a particular parameter combination, sizes, a box origin, tilt sign, unequal masses, more species, particular frame counts...), a multi-step sequence of calls, or two cooperating sites that each look fine alone. Prefer plausible developer mistakes (refactoring slips, off-by-one, wrong index/variable, swapped arguments, wrong constant, missing copy, changed comparison) over contrived sabotage. Make the two changes different in kind and location (spread them over the different mechanisms the property is anchored in).
+  (c) is NOT exposed by ordinary use at once: it should need something specific to manifest — an unusual but valid input (e.g. a branch the tests never execute, a particular parameter combination, sizes, a box origin, tilt sign, unequal masses, more species, particular frame counts...), a multi-step sequence of calls, or two cooperating sites that each look fine alone. Prefer plausible developer mistakes (refactoring slips, off-by-one, wrong index/variable, swapped arguments, wrong constant, missing copy, changed comparison) over contrived sabotage. Make the two changes different in kind and location (spread them over the different mechanisms the property is anchored in).{(" This time concentrate on these anchored mechanisms of the property (earlier changes already covered the others): " + focus + ".") if focus else ""}
 For each change write a demonstration program demo.py (plain Python, run as `PYTHONPATH={wt} /venv/bin/python demo.py`, self-contained: builds its own inputs/temporary files under a tempfile.mkdtemp(), does not depend on the current directory) that exits 0 on the clean checkout and exits non-zero (assertion failure with a clear message) when the change is applied. The demo should check the property's statement against an independent straightforward computation, not against stored numbers.
 
 Deliverables (create these directories): {wt}/_out/1/, {wt}/_out/2/ each containing
